@@ -6,7 +6,7 @@ VARIABLE hist
 HInit == Init /\ hist = <<>>
 HNext == /\ Next
          /\ hist' = IF req' # req THEN Append(hist, [a |-> "issue", cmds |-> writes'[req']])
-                    ELSE IF pc = "idle" /\ pc' = "ckPrep" THEN Append(hist, [a |-> "ckpt"])
+                    ELSE IF pc # "ckPrep" /\ pc' = "ckPrep" THEN Append(hist, [a |-> "ckpt"])
                     ELSE hist
 HSpec == HInit /\ [][HNext]_<<vars, hist>>
 HView == <<View, hist>>
